@@ -223,19 +223,9 @@ Theorem C06_total_satisfaction_mult : forall m I (P : Satisfaction.profile) (xs 
 Proof. exact total_satisfaction_mult. Qed.
 Print Assumptions C06_total_satisfaction_mult.
 
-(* UNPROVED (DESIGN.md section 4, C06, "for each modelled rule  rule classes == rule (expand classes)"):
-
-   Equal Shares, full refinement --
-     forall x, option_map o_alloc (mes_resolute x)
-               = option_map o_alloc (mes_resolute (mkIn (mi_costs x) (mi_budget x) (expand (mi_voters x)) (mi_tb x)
-                                                       (mi_enum x) (mi_bin x) (mi_init x)))      (as sets; same for
-     mes_irresolute / mes_iter_resolute / mes_iter_irresolute).
-   Proved instead (C06_mes_*_mult above): the money per voter copy, the total utility of every project and the money
-   of its supporters -- the multiplicity-weighted sums the model computes -- are the sums over the expanded voters.
-   Missing: the sweep over a class of k supporters behaves as the sweep over k supporters
-     0 < u -> Qnat (S k) * u <= denom ->
-     sweep cost contrib denom (repeat (mkSup b u 1) (S k) ++ r) ~ sweep cost contrib denom (mkSup b u (Qnat (S k)) :: r)
-   and the simulation of run_res through the re-indexing of voters. *)
+(* The Equal Shares refinement "rule on classes == rule on the expanded voters" (resolute, irresolute,
+   iterated and iterated-irresolute entry points) is PROVED in Props/C06mes.v (mes_mult, mes_irr_mult,
+   mes_iter_mult, mes_iter_irr_mult), through the deterministic textbook rule. *)
 
 (* non-vacuity: a profile with a ballot cast three times; classes vs expanded voters, concrete values *)
 Example C06_nonvacuous :
